@@ -261,7 +261,9 @@ func (p *parser) parseVectorAggregationExpr() (e *VectorAggregationExpr, err err
 			return err
 		}
 
-		if t := p.peek(); t.Type == lexer.Number {
+		// A leading number is the parameter only if a comma follows it,
+		// otherwise it starts an expression like `sum(2 * rate(...))`.
+		if t := p.peek(); t.Type == lexer.Number && p.pos+1 < len(p.tokens) && p.tokens[p.pos+1].Type == lexer.Comma {
 			param, err := p.parseInt()
 			if err != nil {
 				return err
